@@ -106,7 +106,8 @@ def rule_skip_pair(ctx, R):
         if not ok:
             R.finding(ins.fn, "index-insert#%d:no-node" % k, "key_index updated (line %d) without linking a node: the index and the list disagree" % ins.bb_line(i), ins.loc(i))
     # re-scoring path: on the Some edge of key_index.get the old node is unlinked before the new one is linked
-    kg = idx_calls(ins, "get")
+    # the existing-key test is a key_index.get, or the previous value key_index.insert hands back
+    kg = idx_calls(ins, "get") + [i for i in ki if shared.result_switch(ins, i) is not None]
     R.floor("index_gets_in_insert", len(kg))
     for g in kg:
         rs = shared.result_switch(ins, g)
@@ -114,10 +115,11 @@ def rule_skip_pair(ctx, R):
             R.finding(ins.fn, "rescore:get-not-inspected", "existing-key lookup result not inspected", ins.loc(g)); continue
         some_reg = set()
         for o in rs["ok"]:
-            some_reg |= cfg.fwd(ins, [o], cut=rs["fail"])
+            some_reg |= cfg.fwd(ins, [o])
         links = [j for j in inn if j in some_reg]
         unl = [j for j in rmn if j in some_reg]
-        ok = bool(links) and bool(unl) and all(any(cfg.dominates(ins, u, l) for u in unl) for l in links if l in cfg.dom_set(ins, rs["ok"][0]))
+        # on the existing-key edge no link is reached without passing an unlink first
+        ok = bool(links) and bool(unl) and cfg.path_avoiding(ins, rs["ok"], links, unl) is None
         R.inst(ins.fn, "rescore", {"links_on_existing_key_path": len(links), "unlinks_on_existing_key_path": len(unl), "unlink_dominates_link": ok})
         if not ok:
             R.finding(ins.fn, "rescore:no-unlink-before-link", "re-scoring an existing member links a new node without first unlinking the old one: the member appears twice", ins.loc(g))
@@ -256,9 +258,39 @@ def rule_skip_cmp(ctx, R):
 
 
 def cursor_local(b):
+    """the search cursor: the named local (a node pointer or an Option of one) that is assigned
+    inside a loop from a `forward[..]` link -- whatever it is called"""
     for l, nm in b.names.items():
         if nm == "current":
             return l
+    loops = cfg.loops(b)
+    inloop = set().union(*loops.values()) if loops else set()
+    cands = {}
+    for x in inloop:
+        for st in b.stmts(x):
+            if st["k"] != "=" or st["l"]["p"] or st["l"]["l"] not in b.names:
+                continue
+            r = st["r"]
+            src = op_place(r["o"]) if r["k"] in ("use", "cast") and not op_is_const(r["o"]) else None
+            if src is None:
+                continue
+            P = prov.origins(b, src["l"])
+            flds = [e.get("f", "") for e in src["p"] if isinstance(e, dict)] + list(P.fields)
+            if any(str(f).endswith("SkipListNode.forward") for f in flds):
+                cands[st["l"]["l"]] = cands.get(st["l"]["l"], 0) + 1
+    if len(cands) == 1:
+        return next(iter(cands))
+    # several pointer-typed names are fed from the links (`node = cursor?`): the cursor is the one
+    # written in a block that jumps back to a loop head
+    heads = set(loops)
+    latch = set()
+    for x in inloop:
+        if any(y in heads for y in b.succs(x)):
+            for st in b.stmts(x):
+                if st["k"] == "=" and not st["l"]["p"] and st["l"]["l"] in cands:
+                    latch.add(st["l"]["l"])
+    if len(latch) == 1:
+        return next(iter(latch))
     return None
 
 
